@@ -9,6 +9,12 @@
 (* string VALUE may contain here):                                         *)
 (*    1 a   2 "   3 \   4 /   5 n   6 u   7 U+000A   8 U+0001   9 U+007F   *)
 (*   10 U+1F600 (astral: a surrogate pair in \u escapes)   11 U+FFFD       *)
+(* Characters that are special to SOME layer other than JSON (alphabet     *)
+(* SpecialChars, raw inside strings and keys in every position):           *)
+(*   12 U+FEFF (a byte order mark only as FIRST character of a text)       *)
+(*   13 U+2028  14 U+2029 (line ends of ECMAScript / str.splitlines)       *)
+(*   15 U+0085 (C1 control, XML 1.1 line end)  16 U+00A0 (str.strip space) *)
+(*   17 U+FFFE  18 U+FFFF (noncharacters: NOT XML characters)              *)
 (* Text-only characters (they occur only inside \uXXXX escapes):           *)
 (*   20..29 digits 0..9    30..35 A..F    41..45 b..f  (a is character 1)  *)
 (*   50 / 51 lone high / low surrogate D83D / DE00 (what a decoder that    *)
@@ -18,6 +24,8 @@ EXTENDS Integers, Sequences, FiniteSets
 
 CA == 1  CQ == 2  CB == 3  CS == 4  CN == 5  CU == 6  CNL == 7  CC1 == 8  CDEL == 9  CAST == 10
 CREP == 11
+CBOM == 12  CLS == 13  CPS == 14  CNEL == 15  CNBSP == 16  CFFFE == 17  CFFFF == 18
+SpecialChars == 12..18
 LoneHi == 50
 LoneLo == 51
 BAD == 0
@@ -27,12 +35,14 @@ SourceChars == 1..10
 Code(c) == CASE c = CA -> 97 [] c = CQ -> 34 [] c = CB -> 92 [] c = CS -> 47 [] c = CN -> 110
              [] c = CU -> 117 [] c = CNL -> 10 [] c = CC1 -> 1 [] c = CDEL -> 127
              [] c = CAST -> 128512 [] c = CREP -> 65533
+             [] c = CBOM -> 65279 [] c = CLS -> 8232 [] c = CPS -> 8233 [] c = CNEL -> 133 [] c = CNBSP -> 160
+             [] c = CFFFE -> 65534 [] c = CFFFF -> 65535
              [] c \in 20..29 -> 48 + (c - 20)
              [] c \in 30..35 -> 65 + (c - 30)
              [] c \in 41..45 -> 98 + (c - 41)
              [] c = LoneHi -> 55357 [] c = LoneLo -> 56832
              [] OTHER -> -1
-AllChars == (1..11) \cup (20..35) \cup (41..45) \cup {LoneHi, LoneLo}
+AllChars == (1..18) \cup (20..35) \cup (41..45) \cup {LoneHi, LoneLo}
 CharOfCode(n) == IF \E c \in AllChars : Code(c) = n THEN CHOOSE c \in AllChars : Code(c) = n ELSE BAD
 
 (* hexadecimal digits *)
@@ -76,11 +86,11 @@ Render(c, f) == CASE f = "lit" -> <<c>> [] f = "short" -> Short(c) [] f = "U" ->
 (*           non-ASCII and controls as lower-case \u, / and U+007F literal  *)
 Policies == {"canon", "min", "U", "l", "py"}
 PolicyForm(pol, c) ==
-  CASE pol = "canon" -> IF HasShort(c) THEN "short" ELSE IF c \in {CC1, CDEL} THEN "U" ELSE "lit"
+  CASE pol = "canon" -> IF HasShort(c) THEN "short" ELSE IF c \in {CC1, CDEL, CNEL} THEN "U" ELSE "lit"
     [] pol = "min"   -> IF MustEscape(c) THEN (IF HasShort(c) THEN "short" ELSE "U") ELSE "lit"
     [] pol = "U"     -> "U"
     [] pol = "l"     -> "l"
-    [] pol = "py"    -> IF c \in {CQ, CB, CNL} THEN "short" ELSE IF c \in {CC1, CAST, CREP} THEN "l" ELSE "lit"
+    [] pol = "py"    -> IF c \in {CQ, CB, CNL} THEN "short" ELSE IF c = CC1 \/ Code(c) > 127 THEN "l" ELSE "lit"
 RECURSIVE Esc(_, _)
 Esc(s, pol) == IF s = <<>> THEN <<>> ELSE Render(Head(s), PolicyForm(pol, Head(s))) \o Esc(Tail(s), pol)
 EscCanon(s) == Esc(s, "canon")
@@ -106,14 +116,14 @@ WellFormed(x) == BAD \notin {Unesc(x)[i] : i \in 1..Len(Unesc(x))}
 
 (* XML 1.0 Char production: U+0001 is not an XML character.  F&O 3.1 fn:parse-json and
    fn:json-to-xml (escape=false, no fallback function): such codepoints are replaced by U+FFFD *)
-IsXmlChar(c) == c # CC1 /\ c # LoneHi /\ c # LoneLo /\ c # BAD
+IsXmlChar(c) == c # CC1 /\ c # LoneHi /\ c # LoneLo /\ c # BAD /\ c # CFFFE /\ c # CFFFF
 XmlSafe(s) == [i \in 1..Len(s) |-> IF IsXmlChar(s[i]) THEN s[i] ELSE CREP]
 AllXml(s)  == \A i \in 1..Len(s) : IsXmlChar(s[i])
 
 (* json-to-xml with escape=true (F&O 3.1 17.4.2): special characters are the codepoints 0..1F and
    7F..9F, codepoints that are not XML characters and the backslash; they are written as a
    two-character escape where one exists, else \uHHHH; nothing else is escaped, not even " and / *)
-IsSpecial(c) == c \in {CNL, CC1, CDEL, CB} \/ ~IsXmlChar(c)
+IsSpecial(c) == c \in {CNL, CC1, CDEL, CNEL, CB} \/ ~IsXmlChar(c)
 RECURSIVE EscSpecial(_)
 EscSpecial(s) == IF s = <<>> THEN <<>>
                  ELSE LET c == Head(s) IN
